@@ -121,6 +121,8 @@ def verify_member_contract(run, stats, dp, what_failed: str, stand_in: str) -> N
         stats.samples.append(ob_sample(posts[0]))
     for a in dp.ASSUMED:
         run.assume("assumed callee contract (generate_property): " + a)
+    for a in getattr(dp, "DISCHARGED", []):
+        run.notes.append("callee contract used by generate_property and proved in the same run: " + a)
     if run.tier == "thorough":
         # every decided obligation once more on cvc5 (chunks in parallel); a disagreement is a checker error
         import concurrent.futures as cf
